@@ -1148,3 +1148,37 @@ Proof.
   - apply nodup_lhs_in.
   - apply nodup_lhs_in.
 Qed.
+
+(* ------------------------------------------------------------------ several cycles *)
+Lemma res_get_none : forall (res : list (lhs * fexpr)) l, ~ In l (map fst res) -> res_get res l = None.
+Proof.
+  induction res as [|[k e] res IH]; intros l H; [reflexivity|]. cbn in *.
+  destruct (lhs_eqb l k) eqn:E.
+  - apply lhs_eqb_eq in E. subst. exfalso. apply H. left. reflexivity.
+  - apply IH. intro Hin. apply H. right. exact Hin.
+Qed.
+
+Lemma next_agree : forall prog d res, elab prog d = Some res ->
+  forall E i, model_next res E i = spec_next d prog E i.
+Proof.
+  intros prog d res H E i. unfold model_next, spec_next, is_assigned.
+  destruct (existsb (lhs_eqb (LW (TReg i))) (map fst (slits prog))) eqn:Ex.
+  - apply existsb_exists in Ex. destruct Ex as [l [Hin Hl]]. apply lhs_eqb_eq in Hl. subst l.
+    destruct (value_wire prog d res H (TReg i) Hin) as (e & Hget & Hv).
+    rewrite Hget, <- Hv. reflexivity.
+  - rewrite res_get_none; [reflexivity|].
+    intro Hin. apply (one_driver_per_target prog d res H) in Hin.
+    assert (Ht : existsb (lhs_eqb (LW (TReg i))) (map fst (slits prog)) = true).
+    { apply existsb_exists. exists (LW (TReg i)). split; [exact Hin|apply lhs_eqb_refl]. }
+    congruence.
+Qed.
+
+Theorem run_agree : forall prog d res, elab prog d = Some res ->
+  forall inputs regs, model_run res inputs regs = spec_run d prog inputs regs.
+Proof.
+  intros prog d res H. induction inputs as [|inp rest IH]; intro regs; [reflexivity|].
+  cbn [model_run spec_run].
+  assert (Hs : model_step res inp regs = spec_step d prog inp regs).
+  { unfold model_step, spec_step. apply map_ext. intro k. apply (next_agree prog d res H). }
+  rewrite Hs, IH. reflexivity.
+Qed.
